@@ -14,6 +14,7 @@ from typing import Any, Dict, List, Optional, Tuple
 
 import asyncssh
 from asyncssh import connection as connmod
+from asyncssh.stream import SSHStreamSession
 
 import pair
 
@@ -121,14 +122,20 @@ class Sess:
         self.chan: Any = None
         self.eof_ret, self.armed, self.pty_ok, self.req_ok = eof_ret, armed, pty_ok, req_ok
         self.wc: List[Any] = []
+        self.dr: List[Any] = []
+        # the writer side of asyncssh's own stream session, fed with the flow-control callbacks only: its real
+        # `drain()` is what the `drain` op of the scripts waits in
+        self.stream: Any = SSHStreamSession()
 
     # common
     def connection_made(self, chan: Any) -> None:
         self.chan = chan
+        self.stream.connection_made(chan)
         self.log.append('made')
 
     def connection_lost(self, exc: Optional[Exception]) -> None:
         self.log.append('lost:' + exc_name(exc))
+        self.stream.connection_lost(exc)
 
     def session_started(self) -> None:
         self.log.append('started')
@@ -142,9 +149,11 @@ class Sess:
 
     def pause_writing(self) -> None:
         self.log.append('pause_writing')
+        self.stream.pause_writing()
 
     def resume_writing(self) -> None:
         self.log.append('resume_writing')
+        self.stream.resume_writing()
 
 
 class CSess(Sess, asyncssh.SSHClientSession):
@@ -225,6 +234,7 @@ class RealSys:
         self.closeout: Dict[str, set] = {'c': set(), 's': set()}    # peer numbers for which a CLOSE has been written
         self.datain: Dict[str, Dict[int, int]] = {'c': {}, 's': {}}  # DATA packets delivered per local number
         self.apppaused: Dict[Tuple[str, int], bool] = {}
+        self.appclosed: Dict[Tuple[str, int], bool] = {}           # the application called close() / abort() / exit()
         self.cur_line = 0
         self.mid: List[Tuple[int, str, str]] = []        # (script line, signature, detail) of closed-channel violations
         self.mid_seen: set = set()
@@ -391,6 +401,16 @@ class RealSys:
                 if (side, i, 'j') not in self.mid_seen:
                     self.mid_seen.add((side, i, 'j'))
                     self.judged[key] = self.judged.get(key, 0) + 1
+                # a writer blocked in drain(): the peer's CLOSE ends sending for good (the unsent data is discarded), so
+                # it must be released NOW -- also when the channel's clean-up legitimately waits for a paused reader
+                if any(not t.done() for t in sess.dr) and (side, i, 'd') not in self.mid_seen:
+                    self.mid_seen.add((side, i, 'd'))
+                    self.mid.append((self.cur_line, f'drain-never-completes:peer-closed:{role}',
+                                     f'{side}{i} (channel {loc}): the peer\'s CLOSE was delivered (nothing can be sent any '
+                                     f'more, the unsent data was discarded), the connection is up and the event loop has '
+                                     f'drained, yet drain() is still pending; session log {self._join(sess.log)}; '
+                                     f'{max(0, undelivered)} DATA packet(s) received but not handed to the session; '
+                                     f'reading paused by the application: {bool(self.apppaused.get((side, i)))}'))
                 if not sym:
                     continue
                 if self.apppaused.get((side, i)) and undelivered > 0:
@@ -409,6 +429,56 @@ class RealSys:
                                  f'event loop has drained, yet: {", ".join(sym)}; session log {self._join(sess.log)}; '
                                  f'{max(0, undelivered)} DATA packet(s) received but not handed to the session; '
                                  f'reading paused by the application: {bool(self.apppaused.get((side, i)))}'))
+
+    def judge_both_closed(self) -> None:
+        """The property for a channel BOTH applications have given up: once each side has called close() / abort()
+        (exit() on the server), nothing is in flight and the event loops have drained, the CLOSE of each side has
+        reached the other and both channel objects are cleaned up -- whatever was still waiting to be sent or
+        delivered on either side (close() gives that data up)."""
+        if len(self.loop._ready) > 0:                       # type: ignore[attr-defined]
+            return
+        if any(d is not None for q in self.pending.values() for d, _n in q):
+            return
+        for side in 'cs':
+            conn = self.conn.get(side)
+            if conn is None or self.lost[side] or self.down[side] or conn.is_closed():
+                return
+        for i, csess in enumerate(self.csess):
+            if not self.appclosed.get(('c', i)) or csess.chan is None:
+                continue
+            cn, _sn = self._numbers('c', i)
+            if cn is None or cn not in self.pairmap:
+                continue
+            js = [j for j, o in enumerate(self.sopen) if o == cn and j < len(self.ssess) and self.ssess[j] is not None]
+            if not js or not self.appclosed.get(('s', js[0])) or self.ssess[js[0]].chan is None:
+                continue
+            if ('b', i) not in self.mid_seen:
+                self.mid_seen.add(('b', i))
+                self.judged['both-closed'] = self.judged.get('both-closed', 0) + 1
+            for side, k, sess in (('c', i, csess), ('s', js[0], self.ssess[js[0]])):
+                role = 'client' if side == 'c' else 'server'
+                conn = self.conn[side]
+                loc, peer = self._numbers(side, k)
+                sym: List[str] = []
+                if peer is not None and peer not in self.closeout[side]:
+                    sym.append('close-never-sent')
+                if side == 'c' and k < len(self.ctasks) and not self.ctasks[k].done():
+                    sym.append('create_session-pending')
+                if 'made' in sess.log and not any(x.startswith('lost') for x in sess.log):
+                    sym.append('connection_lost-missing')
+                if any(not t.done() for t in sess.wc):
+                    sym.append('wait_closed-pending')
+                if any(not t.done() for t in sess.dr):
+                    sym.append('drain-pending')
+                if loc is not None and loc in conn._channels:
+                    sym.append('still-registered')
+                if not sym or ('b', side, k) in self.mid_seen:
+                    continue
+                self.mid_seen.add(('b', side, k))
+                self.mid.append((self.cur_line, f'both-closed-channel-never-cleaned-up:{role}:{sym[0]}',
+                                 f'{side}{k} (channel {loc}): both applications have called close()/abort() on this '
+                                 f'channel, nothing is in flight, the connection is up and the event loops have drained, '
+                                 f'yet: {", ".join(sym)}; session log {self._join(sess.log)}'))
 
     # ---- script execution -----------------------------------------------------------------------------
     def _sess(self, side: str, i: int) -> Optional[Sess]:
@@ -466,10 +536,17 @@ class RealSys:
                 elif o == 'exit':
                     if side == 's':
                         ch.exit(0)
+                elif o == 'limits':
+                    ch.set_write_buffer_limits(high=int(ws[4]), low=int(ws[5]))
+                elif o == 'drain':
+                    # started at once (as the model counts it): blocked iff writing is paused right now
+                    sess.dr.append(asyncio.Task(self._drain(sess), loop=self.loop, eager_start=True))
                 else:
                     return 'bad-op'
             except Exception as e:
                 return 'raised:' + exc_name(e)
+            if o in ('close', 'abort') or (o == 'exit' and side == 's'):
+                self.appclosed[(side, i)] = True
             if o == 'pause':
                 self.apppaused[(side, i)] = True
             elif o in ('resume', 'close', 'abort'):
@@ -546,6 +623,7 @@ class RealSys:
                 n += 1
             self.settle_rounds.append(n)
             self.judge_closed()
+            self.judge_both_closed()
             return f'{n} ' + ('quiet' if len(self.loop._ready) == 0 else 'busy')   # type: ignore[attr-defined]
         if cmd == 'lose':
             side, reset = ws[1], ws[2] == '1'
@@ -558,8 +636,16 @@ class RealSys:
             return 'ok'
         if cmd == 'show':
             self.judge_closed()
+            self.judge_both_closed()
             return self.show()
         return 'bad-op'
+
+    @staticmethod
+    async def _drain(sess: Sess) -> None:
+        try:
+            await sess.stream.drain(None)
+        except (BrokenPipeError, asyncssh.Error, OSError, ValueError, AttributeError, AssertionError):
+            pass                # released with an error is released
 
     # ---- observation ----------------------------------------------------------------------------------
     @staticmethod
@@ -590,15 +676,16 @@ class RealSys:
             parts.append(f'{tag}.closed={1 if conn.is_closed() else 0}')
             if side == 'c':
                 for i, (sess, t) in enumerate(zip(self.csess, self.ctasks)):
-                    parts.append(f'c{i}={self._join(sess.log)};out={self._outcome(t)};wc={self._wc(sess.wc)}')
+                    parts.append(f'c{i}={self._join(sess.log)};out={self._outcome(t)};wc={self._wc(sess.wc)}'
+                                 f';dr={self._wc(sess.dr)}')
                 for i, t in enumerate(self.greqs):
                     parts.append(f'g{i}={self._outcome(t)}')
             else:
                 for j, sess in enumerate(self.ssess):
                     if sess is None:
-                        parts.append(f's{j}=-;wc=0/0')
+                        parts.append(f's{j}=-;wc=0/0;dr=0/0')
                     else:
-                        parts.append(f's{j}={self._join(sess.log)};wc={self._wc(sess.wc)}')
+                        parts.append(f's{j}={self._join(sess.log)};wc={self._wc(sess.wc)};dr={self._wc(sess.dr)}')
         for d in (pair.C2S, pair.S2C):
             parts.append(f'q.{d}=' + self._join([x for x, _n in self.pending[d] if x is not None], ';'))
         return '|'.join(parts)
